@@ -28,3 +28,13 @@ M("C15", "rolling-window-zero-seed", "utils.py", _OLD, _window(seed='b"\\x00" * 
 M("C15", "rolling-window-unguarded-tail", "utils.py", _OLD, _window(tail="        window = window[-overlap_len:]\n"), "C15.R2")
 M("C15", "rolling-window-offset-minus-overlap", "utils.py", _OLD,
   _window("        window_offset = block_offset - overlap_len\n        window += block\n"), "C15.R3")
+
+# limit hoisted into a local (`None` = no limit) and the tail slice built once as a slice object
+_HOIST = _OLD.replace("    saved = b\"\"\n", "    saved = b\"\"\n    carry = slice(-overlap_len, None) if overlap_len else slice(0, 0)\n    limit = max_offset if max_offset else None\n") \
+    .replace("        if max_offset and pos > max_offset:", "        if limit is not None and pos > limit:") \
+    .replace("            if p == -1 or max_offset and p > max_offset:", "            if p == -1 or (limit is not None and p > limit):") \
+    .replace("        saved = d[-overlap_len:] if overlap_len else b\"\"\n", "        saved = d[carry]\n")
+T("C15", "twin-limit-hoisted-slice-object", "utils.py", _OLD, _HOIST)
+M("C15", "limit-hoisted-zero-is-a-limit", "utils.py", _OLD, _HOIST.replace("limit = max_offset if max_offset else None", "limit = max_offset if max_offset is not None else None"), "C15.R5")
+M("C15", "limit-hoisted-nonstrict", "utils.py", _OLD, _HOIST.replace("limit is not None and pos > limit", "limit is not None and pos >= limit"), "C15.R5")
+M("C15", "slice-object-unguarded", "utils.py", _OLD, _HOIST.replace("carry = slice(-overlap_len, None) if overlap_len else slice(0, 0)", "carry = slice(-overlap_len, None)"), "C15.R2")
